@@ -168,9 +168,9 @@ TEXT = {
               "TLC exhaustive on SubReady.tla + TLC-generated schedules replayed on the real gateway, traces validated by the observer spec (incl. the SubReadyTrace micro-step replay)"),
     "C08": _t("spec/DirectCount.tla states the counter design (count at receipt, give back on failure / get, limit) with Exact, UnsubRule and LimitHeld; TLC shows them for the repaired design and shows UnsubRule violated for the code-shaped variant - finding KF-H as a named deviation. On the real gateway: per (connection, rid) counter of confirmed direct subscriptions compared with the gateway's snapshot at quiescence; every unsubscribe outcome predicted from the counter; the limit-256 schedule.",
               "TLC exhaustive on DirectCount.tla (design, both variants) + TLC-generated schedules replayed on the real gateway, traces validated by the observer spec"),
-    "C09": _t("MQ boundary rules (get only under an established event subscription, no duplicate subscription), use count = subscribers at quiescence, nothing left after the (fake-time) eviction delay, gauges zero.", TECH),
+    "C09": _t("MQ boundary rules (get only under an established event subscription, no duplicate subscription), use count = subscribers at quiescence, nothing left after the (fake-time) eviction delay, gauges zero. Table httpconn: after each of 420 HTTP requests no cached resource counts the temporary connection, and after the eviction delay the cache and its event subscriptions are gone.", TECH),
     "C10": _t("Every client frame scanned for every live connection id; every connection-bound request must carry the id of a live connection and its token; a token reset's auth request only for a connection whose own non-empty token id is listed (resets listing an empty id, connections without a token id). Table httptoken: the token of every request of an HTTP call while the service sets, replaces or revokes the temporary connection's token during header auth and during the access request (spec/fn/HttpTokenCheck.tla).", TECH),
-    "C11": _t("Disconnects at arbitrary points of the schedules; after the connection's conn subscription is removed no request may carry its id, it must be gone from the snapshot, use counts must match subscribers. spec/ConnQueue.tla (Enqueue / outputWorker / dispose of a connection: every accepted closure runs exactly once in order, also those queued behind the dispose closure, refusals only after it, the worker leaves exactly when everything has run) is model-checked exhaustively; the cq* notes of every gateway trace are replayed against it by ConnQueueTrace.tla; spec/ConnQueueInd.tla (its counting abstraction) carries an inductive invariant that Apalache checks, and spec/ConnQueueProof.tla proves it with TLAPS, so the safety part holds for any number of closures.",
+    "C11": _t("Disconnects at arbitrary points of the schedules; after the connection's conn subscription is removed no request may carry its id, it must be gone from the snapshot, use counts must match subscribers. spec/ConnQueue.tla (Enqueue / outputWorker / dispose of a connection: every accepted closure runs exactly once in order, also those queued behind the dispose closure, refusals only after it, the worker leaves exactly when everything has run) is model-checked exhaustively; the cq* notes of every gateway trace are replayed against it by ConnQueueTrace.tla; spec/ConnQueueInd.tla (its counting abstraction) carries an inductive invariant that Apalache checks, and spec/ConnQueueProof.tla proves it with TLAPS, so the safety part holds for any number of closures. Table httpconn: 420 HTTP requests (GET / POST, with and without references, every outcome of header auth, access, get / call: granted, refused, failed, timed out, answered by a meta status) through the real ServeHTTP; TLC checks that once the response is written nothing is outstanding or registered for the temporary connection (spec/fn/HttpConnCheck.tla).",
               "TLAPS proof (ConnQueueProof.tla) + TLC exhaustive on ConnQueue.tla + Apalache inductive invariant (ConnQueueInd.tla) + TLC-generated schedules with disconnects replayed on the real gateway, traces validated by the observer spec (incl. the ConnQueueTrace replay)"),
     "C13": _t("Query families: aliasing queries, query events with every answer kind; convergence (C01 predicate) per alias rid, lock released at quiescence, no stall.", TECH),
     "C12": _t("spec/ResSub.tla (cached content against an ordered service channel: initial get, state / custom events, silent mutations revealed by resets, re-fetch) is model-checked exhaustively: no gap, subscribers told what the cache holds, convergence, one re-fetch at a time, every reset eventually re-fetched. Pattern matching and both diff routines are checked exhaustively over bounded domains against definitional TLA+ modules (spec/fn/ResPattern.tla, ResDiff.tla); the protocol part (re-fetch of exactly the matching cached resources, convergence after silent mutations + reset) is checked on replayed schedules by the observer.",
@@ -531,6 +531,9 @@ PROPS["C20"] = dict(run=tables.combine(lifecycle_model, gateway_run(["life"], ["
 TEXT["C20"] = _t("spec/Lifecycle.tla (Start / Stop critical sections with three concurrent Stop callers incl. the MQ closed handler) is model-checked exhaustively: one cause per run on the stop channel and it is the winner's, no socket open and nothing accepted after a run ended, a winning Stop terminates, and - with a messaging client whose Close hands over what it still holds in its receive buffer - nothing is ever handed to the cache's closed work channel (the swapped order is a negative check). On the real gateway: Stop and loss of the messaging connection are injected at arbitrary steps of TLC-generated schedules (with requests, loads and evictions outstanding, gates held, and optionally an event and / or a response delivered by the harness messaging client during Close, as the NATS adapter does); the observer requires every socket closed, the cause on the stop channel, completion within the fake-time bounds, refusal while stopped, a working restart, and no panic. Table lifehttp (real time, real loopback listeners, with and without the metrics endpoint): Stop followed at once by Start - the new run serves and is stopped by nothing of the old one - and a listener that cannot be opened - fail-stop with the cause, messaging client closed, a later Start works.",
                  "TLC exhaustive on Lifecycle.tla + TLC-generated stop / connection-loss schedules replayed on the real gateway, traces validated by the observer spec")
 
+# C11 / C09: what the temporary connection of an HTTP request leaves behind, whatever the outcome of the request
+PROPS["C11"] = dict(run=tables.combine(PROPS["C11"]["run"], tables.tables_run(["httpconn"], "HTTP temporary connection")))
+PROPS["C09"] = dict(run=tables.combine(PROPS["C09"]["run"], tables.tables_run(["httpconn"], "HTTP temporary connection")))
 # C10: the token carried by the requests of an HTTP call while the service changes it
 PROPS["C10"] = dict(run=tables.combine(PROPS["C10"]["run"], tables.tables_run(["httptoken"], "HTTP call token")))
 # C04: what an access response grants is a function table of its own (an error response is never a grant)
